@@ -244,6 +244,39 @@ _add("iszero_branch", """
     mstore 0, 7
     return 0, 32
 """)
+_add("iszero_branch_heavy_false_side", """
+  runtime:
+    %a = calldataload 0
+    %b = calldataload 32
+    %c = iszero %a
+    jnz %c, @t, @f
+  t:
+    mstore 0, 7
+    return 0, 32
+  f:
+    mstore 0, %b
+    %k = add %b, %a
+    mstore 32, %k
+    return 0, 64
+""")
+_add("iszero_branch_loop", """
+  runtime:
+    %n = calldataload 0
+    %z = calldataload 32
+    jmp @head
+  head:
+    %i = phi @runtime, %z, @body, %i2
+    %d = sub %n, %i
+    %c = iszero %d
+    jnz %c, @exit, @body
+  body:
+    %i2 = add %i, 1
+    mstore %i, %i2
+    jmp @head
+  exit:
+    mstore 0, %i
+    return 0, 32
+""")
 _add("eq_branch_prefers_iszero", """
   runtime:
     %a = calldataload 0
